@@ -315,17 +315,35 @@ type Automaton struct {
 	// AtEnd makes Run present a synthetic, result-less *ast.ReturnStmt (Flow.End, positioned at the closing brace) to
 	// Node where control falls off the end of the body, so that rules about "every exit" see that exit too.
 	AtEnd bool
+	// valsTracked: the automaton is already a TrackVals product.
+	valsTracked bool
 }
 
 // StateSet is a set of automaton states (small non-negative ints; it grows as needed up to MaxState).
-type StateSet struct{ bits []uint64 }
+type StateSet struct {
+	bits []uint64
+	// big holds the states at and above denseStates (product automata): sparse.
+	big map[int]struct{}
+}
 
 // MaxState bounds automaton states: a product automaton that exceeds it is a programming error.
-const MaxState = 1 << 16
+const MaxState = 1 << 28
+
+const denseStates = 1 << 14
 
 func (s *StateSet) add(i int) bool {
 	if i < 0 || i >= MaxState {
 		panic("automaton state out of range")
+	}
+	if i >= denseStates {
+		if _, ok := s.big[i]; ok {
+			return false
+		}
+		if s.big == nil {
+			s.big = map[int]struct{}{}
+		}
+		s.big[i] = struct{}{}
+		return true
 	}
 	w, b := i/64, uint(i%64)
 	for len(s.bits) <= w {
@@ -340,6 +358,10 @@ func (s *StateSet) add(i int) bool {
 
 // Has reports membership.
 func (s *StateSet) Has(i int) bool {
+	if i >= denseStates {
+		_, ok := s.big[i]
+		return ok
+	}
 	return i >= 0 && i/64 < len(s.bits) && s.bits[i/64]&(1<<uint(i%64)) != 0
 }
 
@@ -351,6 +373,16 @@ func (s *StateSet) each(fn func(int)) {
 			}
 		}
 	}
+	if len(s.big) > 0 {
+		keys := make([]int, 0, len(s.big))
+		for k := range s.big {
+			keys = append(keys, k)
+		}
+		sort.Ints(keys)
+		for _, k := range keys {
+			fn(k)
+		}
+	}
 }
 
 // Run iterates the automaton to a fixed point.  It returns, per block, the
@@ -359,6 +391,10 @@ func (f *Flow) Run(a *Automaton) map[*cfg.Block]*StateSet {
 	in := map[*cfg.Block]*StateSet{}
 	if len(f.G.Blocks) == 0 {
 		return in
+	}
+	if f.Info != nil && f.Body != nil && !a.valsTracked {
+		// every path property is decided over the feasible paths only: see TrackVals
+		a = TrackVals(f.Info, f.Body, a)
 	}
 	entry := f.G.Blocks[0]
 	in[entry] = &StateSet{}
@@ -494,7 +530,7 @@ func IsMethod(f *types.Func, pkgPath, typ, name string) bool {
 	if pkgPath != "" && n.Obj().Pkg().Path() != pkgPath {
 		return false
 	}
-	return typ == "" || n.Obj().Name() == typ
+	return typ == "" || NameOf(n.Obj()) == typ
 }
 
 // WalkNoFuncLit visits the nodes below n without entering function literals.
@@ -989,6 +1025,31 @@ func TrackVals(info *types.Info, body ast.Node, a *Automaton) *Automaton {
 		})
 	}
 	walk(body, false)
+	// a variable copied into a candidate is followed as well: `if err := f(); err != nil { outer = err }` (what a spliced-in
+	// helper's `return err` becomes) makes outer non-nil on that path
+	for round := 0; round < 2; round++ {
+		ast.Inspect(body, func(x ast.Node) bool {
+			if _, isLit := x.(*ast.FuncLit); isLit {
+				return false
+			}
+			as, ok := x.(*ast.AssignStmt)
+			if !ok || len(as.Lhs) != len(as.Rhs) {
+				return true
+			}
+			for i, l := range as.Lhs {
+				lo := ObjOf(info, l)
+				if _, isId := unparen(l).(*ast.Ident); !isId || lo == nil || !cand[lo] {
+					continue
+				}
+				if rid, isId := unparen(as.Rhs[i]).(*ast.Ident); isId {
+					if ro, ok := ObjOf(info, rid).(*types.Var); ok && !ro.IsField() && ro.Pkg() != nil && ro.Parent() != ro.Pkg().Scope() && !IsNil(info, rid) {
+						cand[ro] = true
+					}
+				}
+			}
+			return true
+		})
+	}
 	var objs []types.Object
 	for o := range cand {
 		if v, ok := o.(*types.Var); ok && !bad[o] && !v.IsField() {
@@ -996,8 +1057,8 @@ func TrackVals(info *types.Info, body ast.Node, a *Automaton) *Automaton {
 		}
 	}
 	sort.Slice(objs, func(i, j int) bool { return ObjPos(objs[i]) < ObjPos(objs[j]) })
-	if len(objs) > 5 {
-		objs = objs[:5]
+	if len(objs) > 6 {
+		objs = objs[:6]
 	}
 	if len(objs) == 0 {
 		return a
@@ -1057,6 +1118,8 @@ func TrackVals(info *types.Info, body ast.Node, a *Automaton) *Automaton {
 		return set(v, i, classify(rhs))
 	}
 	return &Automaton{
+		valsTracked: true,
+
 		Init:  a.Init * pow,
 		AtEnd: a.AtEnd,
 		Block: func() func(int, *cfg.Block) int {
